@@ -3,7 +3,8 @@
  R1 partition (complete truth table): every unit in the feed or the baseline join is a row of exactly one of
     reporting / nonreporting / unexpected / non-modelled; no other unit is; each frame carries its reporting flag (1 on the
    reporting frame, 0 on every row of the other two: R1.reporting-flag) and category; missing vote counts of the units taken from
-   the feed count as 0 (R1.passed-through-nan-free); domain fact of the truth table: inData => inBaseline (left join, C09.R6);
+   the feed count as 0 (R1.passed-through-nan-free); domain fact of the truth table: inData => inBaseline (left join, C09.R6); a
+   compared column may be MISSING (atom na:<column>: every comparison but != is False), so `>= t` and `< t` do not cover a unit;
  R2 unit table = unfiltered concat of the three frames, bound to the frames get_units returned, merged across estimands on
     every shared column (incl. the unit id);
  R3 aggregate provenance (all estimators): results_e = S_R + S_U + S_N (results_e), reporting = S_R + S_U + S_N (reporting)
